@@ -230,7 +230,7 @@ const preamble = `(set-option :produce-models true)
 (define-fun wrapS ((x Int) (h Int)) Int (- (mod (+ x h) (* 2 h)) h))
 (define-fun imin ((a Int) (b Int)) Int (ite (<= a b) a b))
 (define-fun imax ((a Int) (b Int)) Int (ite (>= a b) a b))
-(define-fun subref ((r Int) (i Int) (k Int)) Int (- 0 (+ (* (+ (* r 1048576) i) 1024) k 1)))
+(define-fun subref ((r Int) (i Int) (k Int)) Int (- 0 (+ (* (ite (>= r 0) (* 2 r) (+ 1 (* (- 2) r))) 1073741824) (* i 1024) k 1)))
 (declare-fun band (Int Int) Int)
 (declare-fun bor (Int Int) Int)
 (declare-fun bxor (Int Int) Int)
